@@ -14,6 +14,15 @@ def run(tier):
     from ..contracts import solvers as SV
     for q, c, sites in SV.ITEMS:
         reps.append(deductive.verify_function(SV.REL, q, c, hooks=SV.hooks(sites), prefix='%s::%s[update equations]' % (SV.REL, q)))
+    # RDA and IG hand back parameters refitted by GraphicalModel.mle, a valid factorisation only for the clique order the junction
+    # tree returns: the constructor keeps that order (pv/contracts/gminit.py) and mle is the chain-rule quotient (exactmsg.py)
+    from ..contracts import gminit as GI
+    rel, q, c = GI.ITEM
+    reps.append(deductive.verify_function(rel, q, c))
+    from ..contracts import exactmsg as XM
+    for rel2, q2, c2, sites, tag in XM.ITEMS:
+        if tag == 'C08' and q2.endswith('.mle'):
+            reps.append(deductive.verify_function(rel2, q2, c2, hooks=XM.hooks(sites), prefix='%s::%s[update equations]' % (rel2, q2)))
     return reps
 
 
